@@ -308,8 +308,16 @@ Definition single_dt (ds : list dtype) : option dtype :=
 
 (* reducer over all leaves (axis=None): mask_identity is ignored by the Python code; min/max of nothing is None,
    argmin/argmax of nothing raise (NumPy), the others give the identity *)
+Definition float_limit (dt : dtype) : Z := match dt with DFloat32 => 2 ^ 24 | _ => 2 ^ 53 end.
 Definition reduce_leaves (r : reducer) (dt : dtype) (zs : list Z) : res value :=
   let l := enum zs in
+  (* float sums/products beyond the exactly representable integers are not modelled *)
+  if is_float dt && match r with
+                    | RSum => float_limit dt <? fold_left Z.add (map Z.abs zs) 0
+                    | RProd => float_limit dt <? fold_left Z.mul (map Z.abs (filter (fun z => negb (z =? 0)) zs)) 1
+                    | _ => false
+                    end
+  then unspecified else
   match r with
   | RArgmin | RArgmax =>
       match zs with [] => Err EValue | _ => Ok (opt_val (leaf_reduce r false dt l)) end
@@ -806,6 +814,20 @@ Fixpoint wf_ty (where_ : option name) (tb tw : ty) {struct tb} : ty :=
   | _ => tb
   end.
 
+(* what the broadcasting decides from the node types alone (also when there are no elements) *)
+Fixpoint wf_tyck (tb tw : ty) {struct tb} : res unit :=
+  match tb with
+  | TOpt tb' => wf_tyck tb' (strip_opt1 tw)
+  | TList _ None tb' =>
+      let tw1 := strip_opt1 tw in
+      match tw1 with
+      | TList _ None tw' => do _ <- reg_sizes_ok [tb; tw1]; wf_tyck tb' tw'
+      | TList _ (Some _) _ | TUnion _ | TOpt _ => unspecified
+      | _ => wf_tyck tb' tw1
+      end
+  | _ => Ok tt
+  end.
+
 Inductive what_arg := WArr (tw : ty) (ws : list value) | WScalar (tw : ty) (v : value).
 
 (* one step: ak.with_field(base, what, where) with [where] a single name or None *)
@@ -819,6 +841,7 @@ Definition with_field1 (where_ : option name) (tb : ty) (bs : list value) (what 
       Ok (wf_ty where_ tb tw, out)
   | WArr tw ws =>
       if has_union tw then unspecified else
+      do _ <- wf_tyck tb tw;
       do rows <- top_rows [bs; ws];
       do out <- mapM (fun row => match row with
                                  | [b; w] => wf_v where_ false tb b tw w
@@ -1073,8 +1096,9 @@ Section Fill.
   Variable v0 : value.
   (* [d] = number of list levels above; replaces the None entries of the option nodes found at depth [axis] *)
   Fixpoint fill_v (t : ty) (d axis : Z) (v : value) {struct t} : res value :=
-    match t with TRec _ [] => Ok v | _ =>
-    do ax <- resolve_axis t d axis;
+    match resolve_axis t d axis with
+    | Err e => if has_empty_rec t then Ok v else Err e     (* field-less records have no depth: nothing happens *)
+    | Ok ax =>
     if ax <? d then Ok v else
     match t with
     | TNum _ | TUnk => Ok v
@@ -1204,9 +1228,22 @@ Fixpoint mask_leaf_ok (tm : ty) : bool :=
   | TRec _ _ | TUnion _ => true
   | _ => false
   end.
+Fixpoint mask_tyck (tm ta : ty) {struct tm} : res unit :=
+  match tm with
+  | TOpt tm' => mask_tyck tm' (strip_opt1 ta)
+  | TList _ None tm' =>
+      let ta1 := strip_opt1 ta in
+      match ta1 with
+      | TList _ None ta' => do _ <- reg_sizes_ok [tm; ta1]; mask_tyck tm' ta'
+      | TList _ (Some _) _ | TUnion _ | TOpt _ | TRec _ _ => unspecified
+      | _ => mask_tyck tm' ta1
+      end
+  | _ => Ok tt
+  end.
 Definition spec_mask (vw : bool) (ta : ty) (avs : list value) (tm : ty) (ms : list value) : res value :=
   if has_union ta || has_union tm then unspecified else
   if negb (mask_leaf_ok tm) then Err EValue else
+  do _ <- mask_tyck tm ta;
   do rows <- top_rows [avs; ms];
   rmap VList (mapM (fun row => match row with
                                | [a; m] => mask_v vw tm m ta a
